@@ -109,10 +109,11 @@ def generate():
         tw.fail(fn, "connectionMade has an unrecognised shape")
 
     fn = tw.func(P, "connectionLost")
-    D["ac_lost_clears"], D["ac_lost_loop"], D["ac_lost_exn"] = False, False, "OtherExc"
+    D["ac_lost_clears"], D["ac_lost_loop"], D["ac_lost_exn"], D["ac_lost_clear_first"] = False, False, "OtherExc", True
     for s in body(fn):
-        if ast.unparse(s) == "self._connected = False" and not D["ac_lost_loop"]:
+        if ast.unparse(s) == "self._connected = False" and not D["ac_lost_clears"]:
             D["ac_lost_clears"] = True
+            D["ac_lost_clear_first"] = not D["ac_lost_loop"]
         elif isinstance(s, ast.For) and not s.orelse and ast.unparse(s.target) == "tid" \
                 and ast.unparse(s.iter) == "list(self.transaction)" and len(s.body) == 1 \
                 and isinstance(s.body[0], ast.Expr) and isinstance(s.body[0].value, ast.Call) \
@@ -186,8 +187,8 @@ def generate():
             return coq_bool(x)
         return str(x)
     fields = ["ac_tid_init", "ac_tid_inc", "ac_tid_mask", "ac_init_connected", "ac_made_connected",
-              "ac_build_guard", "ac_build_exn", "ac_handle_by_reply_tid", "ac_lost_clears", "ac_lost_loop",
-              "ac_lost_exn", "ac_unit_default"]
+              "ac_build_guard", "ac_build_exn", "ac_handle_by_reply_tid", "ac_lost_clears", "ac_lost_clear_first",
+              "ac_lost_loop", "ac_lost_exn", "ac_unit_default"]
     out = [
         "(* GENERATED by /verif/gen/gen_async.py from /repo's current source on every run. Do not edit. *)",
         "From PM.theories Require Import Base AsyncClient.",
